@@ -37,7 +37,8 @@ def colvar_block(i, v):
     if v.get("extra"):
         L += ["  " + x for x in v["extra"]]
     if v.get("vec"):
-        L += ["  distanceVec {", "    group1 { atomNumbers %s }" % " ".join(str(a + 1) for a in v["vec"]["g1"]),
+        L += ["  distanceVec {"] + (["    componentCoeff %r" % v["vec"]["coeff"]] if v["vec"].get("coeff", 1.0) != 1.0 else []) + [
+              "    group1 { atomNumbers %s }" % " ".join(str(a + 1) for a in v["vec"]["g1"]),
               "    group2 { atomNumbers %s }" % " ".join(str(a + 1) for a in v["vec"]["g2"]), "  }"]
     for c in v["comps"]:
         L += ["  distanceZ {"]
@@ -546,8 +547,14 @@ def first_error(isteps):
 
 # ------------------------------------------------------------------ oracles on the implementation alone
 def replay_of(sc, subsets, extra=None):
-    d = {"kind": "scenario", "scenario": sc, "scripts": {t: "\n".join(scenario_lines(sc, s, t)) for t, s in subsets.items()},
-         "model_cases": {t: model_case(sc, s) for t, s in subsets.items()}}
+    def mc(s_):
+        try:
+            return model_case(sc, s_)
+        except Exception:
+            return None        # families the pipeline model is not run on (vector variables, ABF, ...)
+    d = {"kind": "scenario", "scenario": {k_: v_ for k_, v_ in sc.items() if not k_.startswith("_")},
+         "scripts": {t: "\n".join(scenario_lines(sc, s, t)) for t, s in subsets.items()},
+         "model_cases": {t: mc(s) for t, s in subsets.items()}}
     if extra:
         d.update(extra)
     return d
@@ -993,7 +1000,7 @@ def vector_scenario(r, k):
     mass = [1.0, 1.0, 1.0]
     if len(g2) == 2:
         mass[1], mass[2] = r.choice(GROUPS2)
-    v = {"tsf": 1, "w": r.choice([0.5, 1.0, 2.0]), "comps": [], "vec": {"g1": [0], "g2": g2}}
+    v = {"tsf": 1, "w": r.choice([0.5, 1.0, 2.0]), "comps": [], "vec": {"g1": [0], "g2": g2, "coeff": r.choice([1.0, 2.0, -1.0, 0.5])}}
     biases = [{"kind": "H", "tsf": r.choice([1, 2, 3]), "vars": [0], "k": r.choice([0.5, 1.0, 2.0]),
                "vcenter": [dy(r, -2, 2, 2) for _ in range(3)]} for _ in range(2)]
     ev = [("S", [[dy(r, -3, 3, 2) for _ in range(3)] for _ in range(3)]) for _ in range(r.randint(6, 10))]
@@ -1012,7 +1019,8 @@ def oracle_vector(run, sc, tag, subset, isteps):
     for s in range(min(first_error(isteps), len(calcs))):
         it = isteps[s]["it"]
         pos = calcs[s][1]
-        x = [sum(fr(sc["mass"][a]) * fr(pos[a][q]) for a in g2) / M2 - fr(pos[g1[0]][q]) for q in range(3)]
+        cf = fr(v["vec"].get("coeff", 1.0))
+        x = [cf * (sum(fr(sc["mass"][a]) * fr(pos[a][q]) for a in g2) / M2 - fr(pos[g1[0]][q])) for q in range(3)]
         F = [Fr(0)] * 3
         E = Fr(0)
         for j in subset:
@@ -1027,9 +1035,9 @@ def oracle_vector(run, sc, tag, subset, isteps):
         want = [[Fr(0)] * 3 for _ in range(sc["natoms"])]
         for a in g2:
             for q in range(3):
-                want[a][q] += F[q] * fr(sc["mass"][a]) / M2
+                want[a][q] += cf * F[q] * fr(sc["mass"][a]) / M2
         for q in range(3):
-            want[g1[0]][q] -= F[q]
+            want[g1[0]][q] -= cf * F[q]
         got = atomf(isteps[s], sc["natoms"])
         if any(not close(got[a][q], float(want[a][q])) for a in range(sc["natoms"]) for q in range(3)) or not close(isteps[s]["E"], float(E)):
             run.violation("pipeline:vector:atom-force", "scenario %d run %s step %d (it=%d): forces %s energy %r; factor * harmonic force on the 3-vector variable gives %s energy %r"
@@ -1288,7 +1296,7 @@ def replay(path):
             print("==== implementation, run %s" % t)
             print("\n".join(V.run_lines(unit, script.split("\n"), cwd=d)[1]))
             print("==== model, run %s" % t)
-            for part in V.run_lines(model, [rp["model_cases"][t]])[1]:
+            for part in (V.run_lines(model, [rp["model_cases"][t]])[1] if rp.get("model_cases", {}).get(t) else ["(no model case for this family)"]):
                 print(part.replace(" ; ", "\n"))
     else:
         print(json.dumps(rp, indent=1)[:6000])
